@@ -74,6 +74,9 @@ type Task struct {
 
 	PanicVal   any
 	PanicStack string
+
+	// Held: the modelled locks the task holds (see lockorder.go)
+	Held []HeldLock
 }
 
 //go:norace
@@ -124,6 +127,9 @@ type Sched struct {
 
 	// OnPanic is called (in the panicking task, token held) when a task panics.
 	Panics []*Task
+
+	// LockEdges: lock-order edges observed in this run (see lockorder.go)
+	LockEdges []LockEdge
 
 	// OnSpawn is invoked when the stack spawns a goroutine or arms a timer.
 	OnSpawn func(t *Task)
@@ -466,13 +472,16 @@ func (s *Sched) Release(t *Task) {
 	case opLock:
 		if t.mu != nil {
 			t.mu.grant(s, t)
+			s.noteAcquire(t, t.mu, t.opLoc, true)
 		} else {
 			t.rw.announce(s, t)
 		}
 	case opWLockWait:
 		t.rw.grantWrite(s, t)
+		s.noteAcquire(t, t.rw, t.opLoc, true)
 	case opRLock:
 		t.rw.grantRead(s, t)
+		s.noteAcquire(t, t.rw, t.opLoc, false)
 	}
 	t.state = tsRunning
 	t.Steps++
